@@ -542,9 +542,24 @@ def sub_interp_extra(ctx):
                               {"sub": "interp-linear", "grid": gname})
 
 
+def sub_refill(ctx):
+    """One grid instance; the value array and the point array are refilled in place between two interpolate calls."""
+    g = _interp_grids()["uniform"]
+    rng = np.random.default_rng([ctx.seed, 131])
+    x, y, z = g.get_points_along_axes()
+    qa = np.stack([rng.uniform(a[1], a[-3], 3) for a in (x, y, z)], axis=1)
+    qb = np.stack([rng.uniform(a[1], a[-3], 3) for a in (x, y, z)], axis=1)
+    va, vb = np.exp(-np.sum(g.points**2, axis=1)) + 0.1, np.cos(g.points[:, 0]) + 2.0
+    for nm, kw in (("cubic", {}), ("cubic-log-nu_x", {"use_log": True, "nu_x": 1}), ("linear", {"method": "linear"}), ("nearest", {"method": "nearest"})):
+        with warnings.catch_warnings():
+            warnings.simplefilter("ignore")
+            lattice.refill_check(ctx, f"interpolate[{nm}]", {"sub": "refill"}, lambda q, v, kw=kw: g.interpolate(q, v, **kw), (qa, va), (qb, vb),
+                                 fresh_fn=lambda q, v, kw=kw: _interp_grids()["uniform"].interpolate(q, v, **kw), rtol=1e-12, atol=1e-13)
+
+
 SUBS = {
     "index": sub_index_maps, "layout": sub_layout, "weights": sub_weights, "from_molecule": sub_from_molecule,
-    "closest": sub_closest, "cube": sub_cube, "interp-extra": sub_interp_extra,
+    "closest": sub_closest, "cube": sub_cube, "interp-extra": sub_interp_extra, "refill": sub_refill,
 }
 
 
